@@ -152,6 +152,7 @@ static void do_move(const char* kind, long long a)
   if(!strcmp(kind, "run")) vs_move_run((int)a);
   else if(!strcmp(kind, "spur")) vs_move_spur((int)a);
   else if(!strcmp(kind, "tmo")) vs_move_tmo((int)a);
+  else if(!strcmp(kind, "steal")) vs_move_steal((int)a);
   else if(!strcmp(kind, "clock")) vs_move_clock(a);
   else if(!strcmp(kind, "rot")) vs_move_rot((int)a);
   show(mv, mover, sf0, mf0);
